@@ -274,6 +274,47 @@ def step (cfg : Cfg Msg) (c : Conn Msg) : Ev Msg → Conn Msg
 def run (cfg : Cfg Msg) (c : Conn Msg) (evs : List (Ev Msg)) : Conn Msg :=
   evs.foldl (step cfg) c
 
+/-! ## an `onDisconnected` callback that dials again at once (what `TCPTransport._onDisconnected` does)
+
+In the code the callback runs INSIDE `disconnect()`, i.e. in the middle of whatever handler noticed the loss
+(`send`, `__trySendBuffer`, `__tryReadBuffer`, the parse loop, `__processConnection`), calls `connect()` — new
+socket, buffers reset, state CONNECTING or DISCONNECTED — and may `send()` on the new connection (the connect is
+in flight: `socket.send` answers EAGAIN, the frames wait in the write buffer).  Every handler returns right after
+`disconnect()` without touching the object again (the loops stop on `return False`, D53's `self.__socket is not
+sock` tests, D76's post-loop test sees CONNECTING), so the callback's effect is placed AFTER the handler's:
+`stepCb`.  That this placement is what the real nested execution does is not assumed but run: the
+correspondence installs exactly this callback on the real object and compares after every event. -/
+
+structure DiscCb (Msg : Type) where
+  /-- outcome of the `connect()` the callback calls (`false`: refused at once) -/
+  ok : Bool
+  /-- messages it sends right after `connect()` -/
+  msgs : List Msg
+
+/-- body of the callback, run at time `now` on the just disconnected object -/
+def afterDisc (cfg : Cfg Msg) (cb : DiscCb Msg) (now : Nat) (c : Conn Msg) : Conn Msg :=
+  cb.msgs.foldl (fun c m => send cfg c m now []) (connect c cb.ok now)
+
+/-- the clock reading during an event (`disconnect()` called by the application carries none: `clock`) -/
+def evTime (clock : Nat) : Ev Msg → Nat
+  | .send _ now _ => now
+  | .poll e => e.now
+  | .connect _ now => now
+  | .disconnect => clock
+
+/-- one event on an object whose `onDisconnected` callback is `cb` (`none`: a callback that leaves the object
+alone); the callback fires iff the event lost a connection, i.e. iff `nDisc` went up -/
+def stepCb (cfg : Cfg Msg) (cb : Option (DiscCb Msg)) (clock : Nat) (c : Conn Msg) (ev : Ev Msg) : Conn Msg :=
+  match cb with
+  | some cb =>
+    if (step cfg c ev).nDisc = c.nDisc + 1 then afterDisc cfg cb (evTime clock ev) (step cfg c ev)
+    else step cfg c ev
+  | none => step cfg c ev
+
+def runCb (cfg : Cfg Msg) (cb : Option (DiscCb Msg)) : Nat → Conn Msg → List (Ev Msg) → Conn Msg
+  | _, c, [] => c
+  | clock, c, ev :: evs => runCb cfg cb (evTime clock ev) (stepCb cfg cb clock c ev) evs
+
 /-! ## the unrepaired `send` (no re-arming of the WRITE interest), for the D76 counterexample -/
 
 /-- `__trySendBuffer` before the repair D76 -/
